@@ -3,8 +3,9 @@
 proof : coq/Properties_C16.v over coq/AutoRemoveModel.v / AutoRemoveProofs.v: for every re-entrant program
         (induction over the run) C16_counter_remover_exact, C16_conditional_remover_exact,
         C16_attached_wrapper_is_triggered, C16_helper_lifetime_irrelevant for the wrappers as generated from
-        the headers, the same statements for the specification used as oracle, and the INT_MIN witness
-        C16_counter_int_min_refuted
+        the headers (INT_MIN < n), C16_specification_meets_the_statements (the oracle, every int count),
+        C16_guarded_counter_covers_every_count (the proposed repair, every int count) and the INT_MIN
+        witness C16_counter_int_min_refuted
 tie A : tools/leaves/autoremove.py -> coq/gen/GenAutoRemove.v (the decrement-and-test of the counter wrapper,
         the order removal / call in both wrappers, the condition's arguments, where the wrappers keep their
         state; both specialisations of both helpers, read from the instantiated operator())
